@@ -52,6 +52,9 @@ var (
 	c01ErrA  = errors.New("acceptable error")
 	c01ErrU  = errors.New("unacceptable error")
 	c01ErrF  = errors.New("fallback result")
+	// what a request returns when the breaker of a downstream dependency is open: the breaker's own
+	// rejection error, wrapped with %w. An ADMITTED call must hand exactly this value back.
+	c01ErrWB = fmt.Errorf("downstream: %w", ErrServiceUnavailable)
 	c01Panic = "c01 request panic"
 )
 
@@ -154,11 +157,30 @@ func c01Req(outcome string, runs *int) func() error {
 			return c01ErrA
 		case "erru":
 			return c01ErrU
+		case "brk":
+			return ErrServiceUnavailable
+		case "wbrk":
+			return c01ErrWB
 		case "panic":
 			panic(c01Panic)
 		}
 		panic("verif c01: bad outcome " + outcome)
 	}
+}
+
+// c01Want is the error value the request of this outcome returns (identity matters).
+func c01Want(outcome string) error {
+	switch outcome {
+	case "erra":
+		return c01ErrA
+	case "erru":
+		return c01ErrU
+	case "brk":
+		return ErrServiceUnavailable
+	case "wbrk":
+		return c01ErrWB
+	}
+	return nil
 }
 
 func c01Acc(err error) bool { return err == nil || err == c01ErrA }
@@ -232,7 +254,7 @@ func c01Par(e *c01Ent, g, k, failPct int, mix uint64) string {
 			for j := 0; j < k; j++ {
 				outcome := r.PickS("ok", "ok", "ok", "erra")
 				if r.Intn(100) < failPct {
-					outcome = r.PickS("erru", "erru", "erru", "panic", "erra")
+					outcome = r.PickS("erru", "erru", "erru", "panic", "erra", "brk", "wbrk")
 				}
 				kind := r.PickS("do", "doacc", "dofb", "dofbacc", "allow", "allow")
 				if kind == "allow" {
@@ -294,13 +316,7 @@ func c01Par(e *c01Ent, g, k, failPct int, mix uint64) string {
 					} else {
 						out.fail++
 					}
-					var want error
-					switch outcome {
-					case "erra":
-						want = c01ErrA
-					case "erru":
-						want = c01ErrU
-					}
+					want := c01Want(outcome)
 					if fbRuns != 0 || panicked != (outcome == "panic") || (!panicked && err != want) {
 						out.bad++
 					}
@@ -388,7 +404,17 @@ func c01Start(cfg verifh.Cfg) (func(op []string) string, func()) {
 	t0 := verifh.Atoi64(cfg.Str("t0", "1"))
 	timex.VerifSetNow(time.Duration(t0))
 	sec := c01Seq.Add(1)
-	realName := func(n string) string { return fmt.Sprintf("c01-%d-%s", sec, n) }
+	// names that a sloppy lookup would confuse: b extends a (same prefix, one more path segment), c equals a
+	// up to letter case
+	realName := func(n string) string {
+		switch n {
+		case "b":
+			return fmt.Sprintf("c01-%d-a/b", sec)
+		case "c":
+			return fmt.Sprintf("C01-%d-A", sec)
+		}
+		return fmt.Sprintf("c01-%d-%s", sec, n)
+	}
 	ents := map[string]*c01Ent{}
 	var order []string
 	get := func(name string) *c01Ent {
@@ -496,6 +522,11 @@ func c01Start(cfg verifh.Cfg) (func(op []string) string, func()) {
 				err = c01Do(e.cb, rn, entry, ctx, useCtx, c01Req(outcome, &reqRuns), fb)
 			}()
 			ret := c01RetClass(err)
+			if reqRuns > 0 && err != nil && err == c01Want(outcome) {
+				// the request's own error came back unchanged (identity, not errors.Is): named after the outcome,
+				// so that the request's own ErrServiceUnavailable ("brk") differs from a rejection ("unavail")
+				ret = outcome
+			}
 			if panicked != "0" {
 				ret = "none"
 			}
@@ -540,7 +571,8 @@ func c01Start(cfg verifh.Cfg) (func(op []string) string, func()) {
 			if op[0] == "accept" {
 				e.promises[i].Accept()
 			} else {
-				e.promises[i].Reject("verif")
+				// the reason is free text for the error log; it must not influence the accounting
+				e.promises[i].Reject([]string{"", "verif", "503 Service Unavailable"}[i%3])
 			}
 			return "ok " + c01State(e.gb) + tail(e)
 		}
@@ -747,7 +779,7 @@ func (g *c01G) allow(u int64, resolve string) {
 
 func (g *c01G) outcome(failPct int) string {
 	if g.r.Intn(100) < failPct {
-		return g.r.PickS("erru", "erru", "erru", "panic", "erra")
+		return g.r.PickS("erru", "erru", "erru", "panic", "erra", "brk", "wbrk")
 	}
 	return g.r.PickS("ok", "ok", "ok", "erra")
 }
@@ -872,7 +904,7 @@ func c01Gen(r *verifh.Rng) []verifh.Section {
 			// total failure storm, then probing around 1 s after every throttled admission
 			n := r.Range(8, 40)
 			for j := 0; j < n; j++ {
-				g.call(r.PickS("erru", "erru", "panic"), g.draw())
+				g.call(r.PickS("erru", "erru", "panic", "brk", "wbrk"), g.draw())
 				if r.Chance(1, 3) {
 					adv(int64(r.Range(0, 30)) * 1000000)
 				}
@@ -895,7 +927,7 @@ func c01Gen(r *verifh.Rng) []verifh.Section {
 				if r.Chance(1, 5) {
 					g.allow(u, "reject")
 				} else {
-					g.callE(r.PickS("do", "dofb", "dofbacc", "doacc"), r.PickS("erru", "erru", "panic", "ok"), g.ctx(), u)
+					g.callE(r.PickS("do", "dofb", "dofbacc", "doacc"), r.PickS("erru", "erru", "panic", "ok", "brk", "wbrk"), g.ctx(), u)
 				}
 			}
 		case 2:
@@ -943,7 +975,7 @@ func c01Gen(r *verifh.Rng) []verifh.Section {
 				cnt := r.Range(1, 4)
 				for c := 0; c < cnt; c++ {
 					if fail {
-						g.call(r.PickS("erru", "panic"), int64(r.Pick(0, 0, 1))*g.draw())
+						g.call(r.PickS("erru", "panic", "wbrk"), int64(r.Pick(0, 0, 1))*g.draw())
 					} else {
 						g.call(r.PickS("ok", "erra"), g.draw())
 					}
